@@ -778,6 +778,15 @@ func runReplay(ck *Check, tier universe.Tier, path string, verbose bool) int {
 		tier = universe.Quick
 	}
 	ph := findPhase(ck, tier, rf.Phase)
+	if ph != nil && len(ph.Env) > 0 && os.Getenv("VERIF_PHASE_ENV_SET") == "" {
+		// the phase runs under a special environment (e.g. GODEBUG=clobberfree=1): re-execute with it
+		self, _ := os.Executable()
+		env := append(os.Environ(), ph.Env...)
+		env = append(env, "VERIF_PHASE_ENV_SET=1")
+		err := syscall.Exec(self, os.Args, env)
+		fmt.Fprintln(os.Stderr, "re-exec with the phase environment failed:", err)
+		return 4
+	}
 	if ph != nil && ph.Race && !RaceBuild {
 		if rb := os.Getenv("VERIF_RACE_BIN"); rb != "" {
 			os.Setenv("GORACE", "halt_on_error=1 exitcode=66")
